@@ -4,6 +4,7 @@ import os
 
 from .. import core, sx
 from ..areas import path as P
+from ..extract import path as xpath
 
 
 def _b(s):
@@ -32,9 +33,13 @@ class C29(core.Check):
     rule = ("case = (name, base, temp, clean, filed, extensioned, fext, pre-existing dirs/sentinel files, steps reopen(clear,reuse,clean)* close(clear)); names/bases of 1-3 segments over "
             "plain, dotted ('..', '.', '', '.h', 'a.', '...', '..b', 'x.y') and unicode segments, occasionally absolute; all 16 flag combinations; thorough adds every name of <= 3 segments over "
             "{'..','.','','a','.h','a.b'} x 5 bases x 16 flag combinations. non-trivial = Filer constructed and at least one entry created or deleted; distinct by request line")
-    trusted_base = ["correspondence harness/props/C29.py + harness/areas/path.py: compiled model driver vs hio.base.filing.Filer on the real filesystem (sandbox under /tmp/path_scratch), full snapshot after every step",
+    trusted_base = ["translator harness/extract/path.py (Filer.TailDirPath / CleanTailDirPath -> Gen/FilerConsts.lean; the containment proofs re-check that both are non-empty lists of ordinary segments)",
+                    "correspondence harness/props/C29.py + harness/areas/path.py: compiled model driver vs hio.base.filing.Filer on the real filesystem (sandbox under /tmp/path_scratch), full snapshot after every step",
                     "modelled: POSIX path functions on segment lists, the filesystem as a set of (path, kind)"]
     assumptions = ["no symlinks below the sandbox; the process may create/chmod/delete everything below it; mkdtemp returns a fresh directory directly below TempHeadDir"]
+
+    def extract(self):
+        return xpath.extract()
 
     # ---------------------------------------------------------------- cases
     def corpus(self):
